@@ -380,8 +380,18 @@ func init() {
 
 	// ---------------------------------------------------------- sync / atomic
 	nop := func(m *Machine, fn *ssa.Function, a []Value) Value { return nil }
-	for _, n := range []string{"(*sync.Mutex).Lock", "(*sync.Mutex).Unlock", "(*sync.RWMutex).Lock", "(*sync.RWMutex).Unlock",
-		"(*sync.RWMutex).RLock", "(*sync.RWMutex).RUnlock", "runtime.KeepAlive", "runtime.SetFinalizer", "runtime.GC",
+	for _, n := range []string{"(*sync.Mutex).Lock", "(*sync.RWMutex).Lock"} {
+		reg(n, func(m *Machine, fn *ssa.Function, a []Value) Value { m.syncDepth++; return nil })
+	}
+	for _, n := range []string{"(*sync.Mutex).Unlock", "(*sync.RWMutex).Unlock"} {
+		reg(n, func(m *Machine, fn *ssa.Function, a []Value) Value {
+			if m.syncDepth > 0 {
+				m.syncDepth--
+			}
+			return nil
+		})
+	}
+	for _, n := range []string{"(*sync.RWMutex).RLock", "(*sync.RWMutex).RUnlock", "runtime.KeepAlive", "runtime.SetFinalizer", "runtime.GC",
 		"(*sync.WaitGroup).Add", "(*sync.WaitGroup).Done", "(*sync.WaitGroup).Wait"} {
 		reg(n, nop)
 	}
@@ -390,14 +400,18 @@ func init() {
 		key := fmt.Sprintf("once:%d", p.C.ID)
 		if m.ext[key] == nil {
 			m.ext[key] = true
+			m.syncDepth++
 			m.CallClosure(a[1].(*Closure))
+			m.syncDepth--
 		}
 		return nil
 	})
 	reg("sync/atomic.AddUint64", func(m *Machine, fn *ssa.Function, a []Value) Value {
 		p := a[0].(Ptr)
 		v := m.ctx.Bin(sym.OpAdd, m.load(p.C).(*sym.Term), a[1].(*sym.Term))
+		m.syncDepth++
 		m.store(p.C, v)
+		m.syncDepth--
 		return v
 	})
 	reg("sync/atomic.AddInt64", intrinsics["sync/atomic.AddUint64"])
@@ -407,7 +421,12 @@ func init() {
 		reg(n, func(m *Machine, fn *ssa.Function, a []Value) Value { return m.load(a[0].(Ptr).C) })
 	}
 	for _, n := range []string{"sync/atomic.StoreUint64", "sync/atomic.StoreInt64", "sync/atomic.StoreInt32", "sync/atomic.StoreUint32"} {
-		reg(n, func(m *Machine, fn *ssa.Function, a []Value) Value { m.store(a[0].(Ptr).C, a[1]); return nil })
+		reg(n, func(m *Machine, fn *ssa.Function, a []Value) Value {
+			m.syncDepth++
+			m.store(a[0].(Ptr).C, a[1])
+			m.syncDepth--
+			return nil
+		})
 	}
 
 	// ---------------------------------------------------------- errors
